@@ -167,7 +167,7 @@ func delayedLoggerOverlay(tmp string) (string, error) {
 }
 
 func runC16(res *result) error {
-	res.Rule = "the real rtcmlogger binary built from /repo: stdin fed in random chunks (empty, shorter and longer than the 8096-byte block, binary; also long runs of one byte and a constant message written again and again, one per write), stdout and the day's record file compared with the " +
+	res.Rule = "the real rtcmlogger binary built from /repo: stdin fed in random chunks (empty, shorter and longer than the 8096-byte block, binary; also long runs of one byte and a constant message written again and again, one per write; also standard input as a regular file of 64 KiB to 1 MiB), stdout and the day's record file compared with the " +
 		"input after the process has exited; also a build with a 40 ms delay before the recorder's write (overlay), which makes a missing wait deterministic; non-trivial = non-empty input; distinct = distinct input"
 	tmp, err := os.MkdirTemp("", "verif-c16")
 	if err != nil {
@@ -220,6 +220,14 @@ func runC16(res *result) error {
 			unit = len(msg)
 			data = bytes.Repeat(msg, 5+r.Intn(20))
 		}
+		// standard input as a regular file (replaying a recorded session): every read returns as much as
+		// the program asks for, whatever its buffer size
+		fromFile := i%6 == 3 && i >= len(sizes)
+		if fromFile {
+			content = "from-file"
+			data = make([]byte, []int{65536, 65537, 131072, 200000, 1 << 20}[r.Intn(5)])
+			r.Read(data)
+		}
 		size = len(data)
 		variant := "plain"
 		if _, ok := bins["delayed-recorder"]; ok && i%2 == 1 {
@@ -231,7 +239,16 @@ func runC16(res *result) error {
 		os.WriteFile(cfg, []byte(fmt.Sprintf(`{"log_events": false, "message_log_directory": %q}`, dir)), 0o644)
 		cmd := exec.Command(bins[variant], "-c", cfg)
 		cmd.Dir = dir
-		stdin, _ := cmd.StdinPipe()
+		var stdin io.WriteCloser
+		if fromFile {
+			inPath := filepath.Join(dir, "input.bin")
+			os.WriteFile(inPath, data, 0o644)
+			f, _ := os.Open(inPath)
+			defer f.Close()
+			cmd.Stdin = f
+		} else {
+			stdin, _ = cmd.StdinPipe()
+		}
 		var stdout bytes.Buffer
 		cmd.Stdout = &stdout
 		fail := ""
@@ -239,6 +256,9 @@ func runC16(res *result) error {
 			return err
 		}
 		go func() {
+			if fromFile {
+				return
+			}
 			rest := data
 			for len(rest) > 0 {
 				k := 1 + r.Intn(9000)
@@ -414,7 +434,7 @@ func runC19(res *result) error {
 		}
 		// one run in eight: a client that sends its request and then only listens (an NTRIP rover),
 		// while the server pauses for longer than any plausible idle limit and then goes on sending
-		listening := i%8 == 5
+		listening := i%8 == 5 && i < 16 // at most two such runs: each lasts as long as its pause
 		idle := time.Duration(n(12, 65)) * time.Second
 		count := 3 + r.Intn(8)
 		if burst {
